@@ -60,6 +60,15 @@ var c09bases = map[string][]c09atom{
 		{"parameters.p1", func(c *Cfg) { c.Params = append(c.Params, Param{"p1", 10}) }, ""},
 		{"parameters.p2", func(c *Cfg) { c.Params = append(c.Params, Param{"p2", "%p1%-%fn()%"}) }, ""},
 	},
+	"null-values-and-todo-leftovers": {
+		{"parameters.p3-null", func(c *Cfg) { c.Params = append(c.Params, Param{"p3", nil}) }, ""},
+		{"parameters.p4", func(c *Cfg) { c.Params = append(c.Params, Param{"p4", "<%p3%>"}) }, ""},
+		{"s1.arguments", func(c *Cfg) { svcIn(c, "s1").Args = []any{"%p3%", nil} }, ""},
+		{"s1.fields.F1-null", func(c *Cfg) { s := svcIn(c, "s1"); s.Fields = append(s.Fields, KV{"F1", nil}) }, ""},
+		{"s3.todo", func(c *Cfg) { svcIn(c, "s3").Todo = P(true) }, ""},
+		{"s3.leftover-arguments", func(c *Cfg) { svcIn(c, "s3").Args = []any{"@nowhere", "%nothing%", "@s1"} }, ""},
+		{"s3.leftover-call", func(c *Cfg) { s := svcIn(c, "s3"); s.Calls = append(s.Calls, Call{Method: "Set1", Args: []any{"@s3"}}) }, "calls"},
+	},
 	"services-and-decorators": {
 		{"s1.constructor", func(c *Cfg) { svcIn(c, "s1").Constructor = P("pk.New") }, ""},
 		{"s1.fields.F1", func(c *Cfg) { s := svcIn(c, "s1"); s.Fields = append(s.Fields, KV{"F1", "@s2"}) }, ""},
@@ -85,6 +94,9 @@ func c09context(base string) *Cfg {
 		c.Params = []Param{{"p1", 1}}
 	case "meta-and-params":
 		c.Services = []Service{{Name: "user", Value: P("Thing{}")}}
+	case "null-values-and-todo-leftovers":
+		c.Meta = &Meta{Pkg: P("gen"), Imports: []KV{{"pk", "fx/pk"}}}
+		c.Services = []Service{{Name: "s1", Constructor: P("pk.New")}}
 	case "services-and-decorators":
 		c.Meta = &Meta{Pkg: P("gen"), Imports: []KV{{"pk", "fx/pk"}}}
 	}
@@ -273,13 +285,16 @@ func init() {
 	Register(&Check{
 		ID:    "C09",
 		Level: "exploration",
-		Rule: "(1) three base configurations of 8-10 atoms (service attributes incl. ordered calls/tags; meta + parameters; services + fields + decorators + version) x every assignment of the atoms to 3 files that respects the order of appended atoms: -o bytes equal the single-file form; (2) 23 overriding pairs (incl. later mappings that are larger than everything merged before, and a user function named like a built-in) (decoy in an earlier file, real value later; empty arguments do not replace) x 3 file placements; (3) file naming / pattern assignment: explicit paths in both orders, one glob, two globs, a directory glob whose lexical path order differs from directory order, uncleaned patterns; " +
+		Rule: "(1) four base configurations of 7-10 atoms (service attributes incl. ordered calls/tags; meta + parameters; services + fields + decorators + version; null-valued parameters, arguments and fields + a todo service carrying left-over arguments and calls) x every assignment of the atoms to 3 files that respects the order of appended atoms: -o bytes equal the single-file form; (2) 23 overriding pairs (incl. later mappings that are larger than everything merged before, and a user function named like a built-in) (decoy in an earlier file, real value later; empty arguments do not replace) x 3 file placements; (3) file naming / pattern assignment: explicit paths in both orders, one glob, two globs, a directory glob whose lexical path order differs from directory order, uncleaned patterns; " +
 			"(4) algebra on the real input.Merge: associativity for all triples and identity for all elements of a universe of 497 inputs (each attribute absent / v1 / v2, two attributes at a time; thorough: all triples, quick: all triples over the single-attribute elements). non-trivial = more than one file involved; distinct = distinct split / pair / triple",
 		Assumptions: []string{"the single-file equivalent is built from the abstract atoms (never by merging YAML); merged Input values are compared structurally, not distinguishing nil from empty collections"},
 		BudgetQuick: 280 * time.Second, BudgetThorough: 1500 * time.Second,
 		Run: func(w *W) {
+			// a semantic build version: the declared `version` becomes observable through the gate (1.2.3 and 1.0.0 are
+			// compatible with it, 9.9.9 is not)
+			DefaultVersion, DefaultBuildInfo = "1.2.3", "1.2.3 unknown"
 			single := map[string]string{}
-			for _, bname := range []string{"service-attributes", "meta-and-params", "services-and-decorators"} {
+			for _, bname := range []string{"service-attributes", "meta-and-params", "services-and-decorators", "null-values-and-todo-leftovers"} {
 				atoms := c09bases[bname]
 				n := len(atoms)
 				total := 1
